@@ -32,7 +32,7 @@ func DefaultOptions() Options {
 }
 
 var fieldPool = []string{"name", "title", "count", "score", "flag", "code", "label", "rank", "note", "size"}
-var refPool = []string{"owner", "parent", "items", "friends", "author", "target", "links", "members"}
+var refPool = []string{"owner", "parent", "items", "friends", "author", "target", "links", "members", "node"}
 
 type gen struct {
 	t    *rapid.T
